@@ -14,7 +14,7 @@ TECHNIQUE = "runtime monitoring: call monitor on the real Metric.ASSD against a 
 RULE = (
     "cases = pair of non-empty masks; enumerated completely: all pairs of non-empty binary masks on 1x5 and 2x3 (and 2x2x2, "
     "3x3 strided in quick, complete in thorough); generated: single voxels, lines, plates, hollow (nested) boxes, far-apart "
-    "objects, objects on borders/corners, extent-1 axes, random blobs up to 16^2 / 8^3; each case also re-evaluated after "
+    "objects, objects on borders/corners, extent-1 axes, random blobs up to 16^2 / 8^3, long thin arrays (up to 100000 voxels along one axis, objects far apart); each case also re-evaluated after "
     "zero padding 0..3 per side, after tight cropping and with exchanged arguments. Non-trivial = the two masks differ; "
     "distinct = hash of the two masks."
 )
@@ -39,6 +39,8 @@ def cases(tier, seed):
         yield {"fam": "shapes", "i": i}
     for i in range(300 if tier == "quick" else 6000):
         yield {"fam": "pipeline", "i": i}
+    for i in range(24 if tier == "quick" else 200):
+        yield {"fam": "long", "i": i}
 
 
 def setup(ctx):
@@ -167,6 +169,26 @@ def run(case, ctx):
             ctx.viol("label_selection_changes_value", {"a": a, "b": b, "plain": v1, "selected": v2}, features={"ndim": a.ndim})
         if i % 200 == 0:
             ctx.sample({"family": k, "shape": list(a.shape), "a_voxels": int(a.sum()), "b_voxels": int(b.sum()), "assd": v1})
+        return
+    if fam == "long":
+        # long thin arrays: distances far beyond 2^15 / sqrt(2^31) voxels along one axis
+        r = gen.rng(ctx.seed, "c07long", i)
+        n = int(r.choice([300, 40_000, 70_000, 100_000]))
+        shape = [(n,), (2, n), (n, 1), (1, 2, n)][i % 4]
+        a = np.zeros(shape, dtype=np.uint8)
+        b = np.zeros(shape, dtype=np.uint8)
+        ax = int(np.argmax(shape))
+        def put(arr, lo, hi):
+            idx = [slice(None)] * arr.ndim
+            idx[ax] = slice(lo, hi)
+            arr[tuple(idx)] = 1
+        w = int(r.integers(1, 4))
+        put(a, int(r.integers(0, 5)), int(r.integers(5, 9)))
+        put(b, n - w - int(r.integers(0, 5)), n - int(r.integers(0, 1)))
+        if i % 3 == 0:
+            put(a, n // 2, n // 2 + 2)
+        ctx.count("f:shape.long")
+        check_pair(ctx, a, b, "long", r)
         return
     if fam == "pipeline":
         # the per-true-positive ASSD values reported by evaluate() (covers the per-instance crop)
